@@ -15,13 +15,25 @@ def gen_case(rng):
     return c, fmin
 
 
+def gen_lib(rng):
+    F = rng.choice([16, 24, 32]); T = rng.randint(3, 8)
+    df = rng.choice([2.0, 2.7939677238464355]); dt = rng.choice([1.0, 18.253611008])
+    sigs = []
+    for _ in range(rng.choice([1, 2, 2, 3])):
+        sigs.append(dict(ch=rng.randint(2, F - 3), off=rng.choice([0.0, 0.25, -0.4]), drift=rng.choice([0.0, 0.3, -0.5, 1.0]), path=rng.choice(["constant", "squared", "sine", "rfi"]),
+                         tprof=rng.choice(["constant", "sine", "sine", "pulses"]), phase=rng.choice([0.0, 2.5, 30.0, -7.0]), period=rng.choice([5.0, 40.0, 100.0]),
+                         level=rng.choice([1.0, 3.0]), fprof=rng.choice(["box", "gaussian", "lorentzian", "voigt", "sinc2"]), width=rng.choice([1.0, 2.5, 4.0]),
+                         seed=rng.randint(0, 999), integrate_path=rng.random() < 0.2, integrate_t=rng.random() < 0.2, smear=rng.random() < 0.2))
+    return dict(F=F, T=T, df=df, dt=dt, fch1=6e9, ascending=rng.random() < 0.5, seed=rng.randint(0, 999), noise=rng.random() < 0.5, signals=sigs)
+
+
 def run(ctx, prop="C06"):
     rng = ctx.rng
     quick = ctx.tier == "quick"
     ctx.rule = ("frames 1-6 x 3-16 on an exact (integer/dyadic) grid, both orientations, prior content zero / integer ramp / chi2 noise / noise cast to "
                 "float32; 1-4 successive injections; components as polynomial callables, arrays, lists, scalars; box / triangle / rational "
                 "profiles; bounding range none / inside / clipped low / clipped high / wholly below / wholly above / reversed / zero-width; "
-                "wrong-length arrays; non-trivial = some returned array is non-zero; distinct = distinct case")
+                "wrong-length arrays; plus 1-3 successive injections built from the shipped path / time-profile / frequency-profile families (state, additivity, history independence, order); non-trivial = some returned array is non-zero; distinct = distinct case")
     ctx.assumptions = ["model and implementation are compared exactly on the exact domain (integer grids, power-of-two sub-sample counts) and to 1e-9 "
                        "of the scale otherwise", "'outside the range' is decided half a channel beyond the requested frequencies"]
     gen = [gen_case(rng) for _ in range(150 if quick else 3000)]
@@ -47,6 +59,18 @@ def run(ctx, prop="C06"):
                 ctx.impl_violation("unexpected-" + st["err"], "signal %d raised %s: %s" % (k, st["err"], st.get("msg")), dict(c, signals=[s]))
     S.check_spec(ctx, cases, impl, fmins)
     S.evaluate(ctx, cases, impl, fmins)
+    # the shipped path / profile families, value-agnostic clauses only (state, additivity, history independence, order)
+    if prop == "C06":
+        lcases = [gen_lib(rng) for _ in range(40 if quick else 800)]
+        limpl = []
+        for part in C.run_impl_parallel("c06_lib_impl", [dict(cases=ch) for ch in C.chunks(lcases, C.NCPU)]):
+            limpl.extend(part)
+        for c, r in zip(lcases, limpl):
+            ctx.count(dict(k="lib", c=c), nontrivial=r["nonzero"])
+            for sg in c["signals"]:
+                ctx.tally("shipped_path", sg["path"]); ctx.tally("shipped_t_profile", sg["tprof"]); ctx.tally("shipped_f_profile", sg["fprof"])
+            for key, msg in r["fails"]:
+                ctx.impl_violation(key, msg, dict(k="lib", **c))
     ctx.sample(dict(frame=dict((k, cases[-1][k]) for k in ("T", "F", "df", "dt", "ascending", "prior")), signal=cases[-1]["signals"][0]))
 
 
@@ -57,6 +81,12 @@ def corpus():
 
 def replay(ctx, payload):
     c = payload["case"]
+    if c.get("k") == "lib":
+        r = C.run_impl("c06_lib_impl", dict(cases=[c]))[0]
+        for k, m in r["fails"]:
+            print("FAILS: %s: %s" % (k, m))
+        print("replay: property %s on %s" % ("FAILS" if r["fails"] else "holds", C.REPO))
+        return 1 if r["fails"] else 0
     r = C.run_impl("sig_impl", dict(cases=[c]))[0]
     for k, m in r["fails"]:
         print("FAILS: %s: %s" % (k, m))
